@@ -32,7 +32,9 @@ Emit == Mode = "chars" => PrintT(ToJson(Case(s)))
 CharClass(c) == IF IsDigit(c) THEN IF c = 48 THEN "0" ELSE "d"
                 ELSE IF IsAsciiLetter(c) THEN IF c = cV THEN "v" ELSE "l"
                 ELSE IF c \in {cDot, cDash, cPlus} THEN <<c>> ELSE "o"
-View == <<Valid(s),
+\* can the prefix still become a valid version?  (without this, a dead prefix such as "v.1." hides the live "v0.1.")
+Viable(x) == \E c \in {<<>>, S("0"), S("a")} : Valid(x \o c)
+View == <<Valid(s), Viable(s),
           IF Len(s) >= 1 THEN CharClass(s[Len(s)]) ELSE "",
           IF Len(s) >= 2 THEN CharClass(s[Len(s) - 1]) ELSE "",
           LET n == Cardinality({i \in 1..Len(s) : s[i] = cDot /\ ~\E j \in 1..i : s[j] \in {cDash, cPlus}})
